@@ -190,6 +190,18 @@ for alg in (13, 14, 8):
               "schema": {1: {"publish": ["k1"], "sign": ["k1"], "revoke": []}, 2: {"publish": ["k1", "k2"], "sign": ["k1", "k2"], "revoke": []}}, "request": rq,
               "strict": alg != 8}
         run("public-and-private-object-on-different-hsms", sc, {"alg": alg, "hash_using_hsm": hh})
+# the request as the tools get it - the KSR document, with timestamps in each of the UTC notations - signed by a process running in another time zone:
+# signing completes (the KSK is valid from the first inception on, to the last expiration) and the RRSIG times are the ones the document states
+for tz_, sfx_ in (("JST-9", ""), ("PST8", ""), ("PST8", "Z"), ("IST-5:30", "+00:00"), ("UTC", ""), ("JST-9", "Z")):
+    for alg in (8, 13):
+        k1 = ksk_for(alg, idx=0)
+        zq = [zsk_for(alg, idx=j) for j in range(2)]
+        rq = skrgen.honest_request(f"zone-{tz_}-{sfx_}-{alg}", NOW, 3, [[zq[0]], [zq[0], zq[1]], [zq[1]]], ksrxml.default_zsk_policy(), sign=True)
+        kd = ceremony.ksk_def(k1, valid_from=rq["bundles"][0]["inc"], valid_until=rq["bundles"][-1]["exp"])
+        sc = {"modules": [[{"id": 0, "objs": S.pair(k1["id"], k1)}]], "ksks": {"k1": kd}, "schema": {i: {"publish": ["k1"], "sign": ["k1"], "revoke": []} for i in (1, 2, 3)},
+              "request": rq, "via_xml": True}
+        with ksrxml.process_zone(tz_, sfx_):
+            run("ksr-document-read-in-another-time-zone", sc, {"alg": alg, "TZ": tz_, "timestamps": sfx_ or "no offset"})
 ok_build, log = vlib.make(["Checks/SignCheck.vo"])
 runner = vlib.CaseRun("C01", "main", "From KV Require Import Base.Prelude Base.Exn Model.Data Model.KsrPolicy Model.Token Model.Sign Checks.SignCheck.", "case", "check", shard=5)
 results = runner.run(cases) if ok_build else [-1] * len(cases)
